@@ -36,6 +36,15 @@ def vtuple(s: str):
     return tuple(int(x) for x in s.split("."))
 
 
+def _stmt_index(fn: ast.AST, node: ast.AST) -> int:
+    """Index of the top-level statement of fn that contains node (written-out code keeps the line numbers of its
+    definition, so order is read off the statement list)."""
+    for i, st in enumerate(fn.body):
+        if any(x is node for x in ast.walk(st)):
+            return i
+    return -1
+
+
 def table_v(ctx: Ctx, chk) -> None:
     rule = "TABLE-V"
     chk.rule(rule, "PROTOCOL_VERSIONS has exactly the keys 1.4, 1.5, 2.0, 2.1, 2.2, each mapping to the module whose VERSION equals the key; the default version 1.4 maps to protocol_14, which is get_protocol's fallback and the protocol of a gateway whose version is still unknown")
@@ -74,7 +83,18 @@ def table_v(ctx: Ctx, chk) -> None:
     ok = len(prot) == 1 and cn.canon(prot[0].value) in ("get_protocol('1.4')",) and len(ver) == 1 and isinstance(ver[0].value, ast.Constant) and ver[0].value.value is None
     setp = [n for n in ctx.own_nodes(init) if isinstance(n, ast.Call) and norm(n.func).endswith(".set_protocol")]
     ok = ok and len(setp) == 1 and canon_sa(ctx, cn, init, setp[0].args[0]) == "get_protocol('1.4')"
-    if ok:
+    derived = False
+    if not ok and not prot and len(ver) == 1 and isinstance(ver[0].value, ast.Constant) and ver[0].value.value is None and len(setp) == 1:
+        # derived layout: no protocol attribute at all; the `protocol` property computes get_protocol(<version> or '1.4')
+        getter = gw.find_method("protocol")
+        rets_ = [n for n in ctx.own_nodes(getter) if isinstance(n, ast.Return) and n.value is not None] if getter is not None else []
+        gc_ = Canon(I, getter).canon(rets_[0].value) if len(rets_) == 1 else ""
+        any_store = any(isinstance(n, (ast.Assign, ast.AnnAssign)) and any(norm(t) == f"self.{sa_['protocol']}" for t in (n.targets if isinstance(n, ast.Assign) else [n.target])) for fl in gw.methods.values() for f_ in fl for n in ctx.own_nodes(f_))
+        if not any_store and gc_ == f"get_protocol(self.{sa_['version']} or '1.4')" and norm(setp[0].args[0]) == "self.protocol" and [id(x) for x in ast.walk(init.node)].index(id(setp[0])) > -1 and _stmt_index(init.node, setp[0]) > _stmt_index(init.node, ver[0]):
+            derived = ok = True
+    if ok and derived:
+        chk.ok(rule, f"{init.fq}::initial protocol", "version = None, the protocol property derives get_protocol(version or '1.4'), schema set to it", init.where)
+    elif ok:
         chk.ok(rule, f"{init.fq}::initial protocol", "_protocol = get_protocol('1.4'), schema set to it, _protocol_version = None", init.where)
     elif not prot or not ver or not setp:
         # the initial state is not set by plain stores in the constructor (a state object, a derived property ...):
